@@ -38,6 +38,8 @@ class C09(Prop):
                                           intraday=intraday, latency=latency, spread=rng.choice([0, 1]),
                                           fees=rng.choice([["0", "0", "0"], ["0", "1/1000", "0"]]))
         case["space"] = dict(kind="box", low=str(-lev), high=str(lev), keys=keys, asWeights=1, fractional=1, margin="0")
+        # a benchmark account on the same exchange, valued at every quote (i.e. before the environment values its own)
+        case["bench_account"] = rng.random() < 0.3
         grid = sorted(set(case["grid"]))
         # adverse gap at a random step: either exactly at a timestep (processed after the execution of the
         # step that lands there) or just after the previous timestep within the latency (processed before it)
@@ -107,26 +109,41 @@ class C09(Prop):
         ended = False
         prev_nlv = s.obs[0].get("nlv")
 
+        fixed_fee, prop_fee, markup = (Fraction(x) for x in case.get("fees", ["0", "0", "0"]))
+        no_interest = markup == 0 and not any(e[0] == "q" and e[1] == "RATE" and Fraction(e[3]) != 0 for e in case["events"]
+                                              if e[3] != "nan")
+        book = dict(basis={}, comm=Fraction(0), seen=0)
+
         def ledger_nlv(o):
-            """NLV recomputed from the holdings and the last quotes of the *input* stream (fully-paid contracts only):
-            independent of the valuation under test"""
-            if o.get("now") is None or any(c.get("kind") not in ("ETF", "Index", "Stock") for c in case["contracts"]):
+            """NLV recomputed from the fills reported so far and the last quotes of the *input* stream: deposit -
+            commissions + sum of multiplier x (position x liquidation quote - sum of quantity x fill price), for fully
+            paid and margined contracts alike; independent of the valuation and of the marking under test"""
+            tr_rec = s.env.broker.track_record
+            while book["seen"] < min(len(tr_rec), o.get("nrec", 0)):
+                for tr in tr_rec[book["seen"]].trades:
+                    k, q, px = tr.contract.symbol, F(tr.quantity), F(tr.acq_price)
+                    m = s.specs[k][0]
+                    book["basis"][k] = book["basis"].get(k, Fraction(0)) + q * px
+                    book["comm"] += fixed_fee + prop_fee * abs(q) * px * m
+                book["seen"] += 1
+            if o.get("now") is None or not no_interest:
                 return None
             now = us(o["now"])
-            tot = o.get("cash")
-            if tot is None:
-                return None
-            for k, q in o["pos"].items():
-                if q == 0:
-                    continue
-                qs = [e for e in case["events"] if e[0] == "q" and e[1] == k and e[2] <= now]
-                if not qs:
-                    return None
-                last = max(qs, key=lambda e: e[2])
-                px = last[3] if q > 0 else last[4]
-                if px == "nan":
-                    return None
-                tot += q * Fraction(px)
+            tot = s.deposit - book["comm"]
+            for k in set(o["pos"]) | set(book["basis"]):
+                q = o["pos"].get(k, Fraction(0))
+                m = s.specs[k][0]
+                val = Fraction(0)
+                if q != 0:
+                    qs = [e for e in case["events"] if e[0] == "q" and e[1] == k and e[2] <= now]
+                    if not qs:
+                        return None
+                    last = max(qs, key=lambda e: e[2])
+                    px = last[3] if q > 0 else last[4]
+                    if px == "nan":
+                        return None
+                    val = q * Fraction(px)
+                tot += m * (val - book["basis"].get(k, Fraction(0)))
             return tot
 
         prev_ledger = ledger_nlv(s.obs[0])
@@ -144,9 +161,16 @@ class C09(Prop):
             if insolvent_before and traded and not o["log"]:
                 # insolvent when the decision was due (no latent event could have rescued it) and yet it traded
                 r.fail("insolvent-account-traded", step=i, nlv_before=float(prev_nlv), theorem="insolvent_rebalance_no_trade")
+            led = ledger_nlv(o)
             if st.startswith("ok"):
                 if o.get("reward") is not None and nlv is not None and nlv <= 0:
                     r.fail("non-positive-nlv-reported", step=i, nlv=float(nlv), theorem="raising_valuation_positive")
+                if led is not None and led <= -Fraction(1, 10**6) * s.deposit and not o["done"]:
+                    # by the independent ledger the account is insolvent at the end of this step, yet the step neither
+                    # reported done nor signalled the end of the episode
+                    r.fail("insolvency-not-detected", step=i, ledger_nlv=float(led), reported_nlv=None if nlv is None else float(nlv),
+                           theorem="valuation_raises_iff / ruin_step_reports_done",
+                           clause="the episode ends at the first step after which NLV <= 0")
                 if o["done"]:
                     ended = True
             elif st == "err rejected" and prev_ledger is not None and prev_ledger <= 0 and not o["log"] and not o["done_flag"]:
@@ -174,7 +198,7 @@ class C09(Prop):
                     if o["done_flag"]:
                         ended = True
             prev_nlv = nlv
-            prev_ledger = ledger_nlv(o)
+            prev_ledger = led
         return r
 
     def classify(self, failure, case):
